@@ -386,6 +386,13 @@ pub proof fn lemma_roundtrip_nl(f: FrameV)
     lemma_dec_strip(b, e);
 }
 
+proof fn lemma_pairs_at(p: Seq<u8>, i: int)
+    requires 0 <= i < p.len()
+    ensures hex_pairs(p).len() == 2 * p.len(), hex_pairs(p)[2 * i] == hex_digit(p[i] >> 4), hex_pairs(p)[2 * i + 1] == hex_digit(p[i] & 0x0F)
+{
+    lemma_pairs(p);
+}
+
 proof fn lemma_byte_nibbles(h: u8, l: u8)
     requires h < 16, l < 16
     ensures ((h * 16 + l) as u8) >> 4 == h, ((h * 16 + l) as u8) & 0x0F == l
@@ -425,11 +432,15 @@ pub proof fn lemma_reencode(b: Seq<u8>, f: FrameV)
     assert forall|i: int| 0 <= i < enc(f).len() implies #[trigger] enc(f)[i] == upper(c[i]) by {
         if i == 0 { assert(c[0] == 58); } else {
             let m = i - 1; let q = m / 2;
+            assert(h.len() == 2 * (5 + k));
+            assert(0 <= m < 2 * (5 + k));
+            assert(0 <= q < 5 + k);
             assert(enc(f)[i] == h[m]);
             assert(p[q] == hex_byte(c, 1 + 2 * q));
             assert(is_hex(c[1 + 2 * q]) && is_hex(c[1 + 2 * q + 1]));
             lemma_hexval_lt16(c[1 + 2 * q]); lemma_hexval_lt16(c[1 + 2 * q + 1]);
             lemma_byte_nibbles(hex_val(c[1 + 2 * q]), hex_val(c[1 + 2 * q + 1]));
+            lemma_pairs_at(p, q);
             assert(h[2 * q] == hex_digit(p[q] >> 4) && h[2 * q + 1] == hex_digit(p[q] & 0x0F));
             if m % 2 == 0 { assert(m == 2 * q); lemma_digit_of_val(c[i]); }
             else { assert(m == 2 * q + 1); lemma_digit_of_val(c[i]); }
